@@ -64,7 +64,7 @@ Lemma english_key_goes_to_default s ev :
   entering_next dops sops conv s ev =
     (if negb (o_fullwidth (opts s)) then commit_or_insert s (kunicode ev)
      else match full_width_symbol_input (kunicode ev) with
-          | None => Panic 603%N
+          | None => Ok (s, Spin BIgnore)
           | Some ch => commit_or_insert s ch
           end).
 Proof.
@@ -72,7 +72,7 @@ Proof.
   assert (K : forall r, entering_next dops sops conv s ev = r -> r =
     (if negb (o_fullwidth (opts s)) then commit_or_insert s (kunicode ev)
      else match full_width_symbol_input (kunicode ev) with
-          | None => Panic 603%N
+          | None => Ok (s, Spin BIgnore)
           | Some ch => commit_or_insert s ch
           end)).
   { intros r Hr. unfold entering_next in Hr. rewrite Hctrl, Hnum, Hcaps in Hr.
